@@ -8,6 +8,7 @@ open Proto LLH Grad ParamLayout
       layout <L> <K> <nNames>
           L = `;`-separated global parameters, each `<fixed 0|1>:<per-source ints: 0 unmapped, n+1 = local name n>`
           -> wf:<0|1> nfl:<n_floating> fl:<floatingIdxs> gp:<K*nNames ints> gpp:<same, pinned rule> ok:<keys in range 0|1> okp:<…pinned>
+      lval <L> <K> <nNames> <theta> <fixed values>   -> K*nNames local parameter values (`n` = NaN / unmapped)
       evt <opa> <ns> <X> <dX>            -> <logLambdaI> <nsGradI> <pGradI>
       sob <sigDep> <bkgDep> <s> <b> <ds> <db>   -> <grad>
       prod <dep1> <dep2> <r1> <r2> <dr1> <dr2>  -> <grad>
@@ -53,6 +54,15 @@ def answer (line : String) : String :=
       let gp := (gpTable gpidxField L K nN).flatten
       let gpp := (gpTable gpidxFieldPinned L K nN).flatten
       s!"wf:{fB (wellFormedB L K nN)} nfl:{nFloating L} fl:{fListD (fun (i : Nat) => toString i) (floatingIdxs L)} gp:{fInts gp} gpp:{fInts gpp} ok:{fB (keysInRange gpidxField L K nN)} okp:{fB (keysInRange gpidxFieldPinned L K nN)}"
+  | ["lval", l, k, nn, th, fxs] =>
+      let L := parseLayout l
+      let θ := pList pF th
+      let fx := pList pF fxs
+      let cells := (List.range (pN k)).flatMap (fun k => (List.range (pN nn)).map (fun n =>
+        match localValue L θ fx k n with
+        | some v => fF v
+        | none => "n"))
+      fListD id cells
   | ["evt", opa, ns, x, dx] =>
       let (o, n, X, dX) := (pF opa, pF ns, pF x, pF dx)
       s!"{fF (logLambdaI o n X)} {fF (nsGradI o n X)} {fF (pGradI o n X dX)}"
